@@ -109,12 +109,12 @@ func hopByHopHeaderRemove(outreq, req *bfe_http.Request) {
 	// copied above) so we only copy it if necessary.
 	copiedHeaders := false
 	for _, h := range bfe_basic.HopHeaders {
-		hv := outreq.Header.Get(h)
-		if hv == "" {
+		hvs := outreq.Header.Values(h)
+		if len(hvs) == 0 {
 			continue
 		}
 
-		if h == "Te" && hv == "trailers" {
+		if h == "Te" && len(hvs) == 1 && hvs[0] == "trailers" {
 			// Issue 21096: tell backend applications that
 			// care about trailer support that we support
 			// trailers. (We do, but we don't go out of
